@@ -27,7 +27,7 @@ func init() {
 	register(&Def{
 		ID:          "C04",
 		Technique:   "typestate of the pending table (lookup-remove-write in one critical section), single-writer slot rules, atomic read-modify-write of the id counter, id/key provenance, routing dominance",
-		Explanation: "Decides: (D1) the id counter is read into FormatInt and incremented by exactly 1 in one critical section, with no other writer and no arithmetic between counter and id; (D2) every write into a response slot happens under the client lock, after a hit lookup of the id in the pending table and its removal, to the looked-up entry, once, with no release in between (3 sites); slots have constant capacity ≥ 1; (D3) requests are registered under the lock with key = Response.id, only on the success edge of Send, each with a context watcher whose cancel function is stored in the Response; (D4) the message written into a slot carries the id under which the Response was registered (the id-mismatch panic is unreachable), and request-shaped inbound members are routed away before the table is consulted; unknown ids return without a write. (D6) the loop that delivers the members of an inbound message has no early exit. (D7) the key used to match a reply is the whole (null-normalised) id text, never a substring or respelling.",
+		Explanation: "Decides: (D1) the id counter is read into FormatInt and incremented by exactly 1 in one critical section, with no other writer and no arithmetic between counter and id; (D2) every write into a response slot happens under the client lock, after a hit lookup of the id in the pending table and its removal, to the looked-up entry, once, with no release in between (3 sites); slots have constant capacity ≥ 1; (D3) requests are registered under the lock with key = Response.id, only on the success edge of Send, each with a context watcher whose cancel function is stored in the Response; (D4) the message written into a slot carries the id under which the Response was registered (the id-mismatch panic is unreachable), and request-shaped inbound members are routed away before the table is consulted; unknown ids return without a write. (D6) the loop that delivers the members of an inbound message has no early exit. (D7) the key used to match a reply is the whole (null-normalised) id text, never a substring or respelling. (D8) no list of messages, tasks or responses is sorted or reversed. (D9) the bytes a Recv returned are decoded inside the receiving call: they reach no goroutine, stored closure, field or channel (a framing may reuse its buffer on the next Recv).",
 		NotDecided:  []string{"that the value delivered equals what the peer sent for every reply stream", "that response i of Batch belongs to call i is decided only structurally (request i from spec i, one slot per id-carrying request in one in-order pass, send's slice returned unchanged)"},
 		Assumptions: []string{"sync.Mutex semantics", "strconv.FormatInt is injective"},
 		RuleText:    ruleText,
@@ -45,8 +45,10 @@ func init() {
 			c.Clause("C04-D4")
 			ruleTokenKeyed(c, "client")
 			ruleClientRouting(c)
+			ruleNoReorderingOfMessages(c)
 			ruleReplyKeyWhole(c, c.M.CPending, "client")
 			ruleNullErrorIsAbsent(c)
+			ruleRecvBufferNotRetained(c, "PROV.recvbuf")
 			c.Clause("C04-D5")
 			ruleBatchOrder(c)
 			ruleDeliveryLoopVisitsAll(c)
@@ -55,7 +57,7 @@ func init() {
 	register(&Def{
 		ID:          "C05",
 		Technique:   "single-writer slot typestate, stop-function path queries, running-state facts at client sends, goroutine accounting against the lifetime WaitGroup, lock-state facts at hook calls, constant tables of filterError vs ErrorCode",
-		Explanation: "Decides: (D1) at most one completion per request: slot writes follow lookup-and-remove in one critical section, slots are closed only by their single receiver after a successful receive; (D2) at least one after an ending event: every registration starts a context watcher with a guaranteed cancel, and every path from Close in the stop function cancels all pending entries and the callback context; Close is guarded, once, and coupled with the stop cause, which is non-nil at every call; (D3) both client Send sites require the running state established in the same critical section; (D4) filterError maps exactly the codes ErrorCode assigns to context.Canceled/DeadlineExceeded back to them; (D5) OnCancel runs with the lock definitely released, after the Response settled, from a closure created only after this goroutine wrote the slot; OnStop runs with the lock released, only from the closure the stop function returns after actually closing; (D6) reader, per-message delivery and callback goroutines are registered with the WaitGroup that Close waits on before every return. (D7) the waiter that settles a Response calls its cancel function on every path; the delivery loop has no early exit. (D8) the loop that waits for the responses of a batch has no early exit; the table of pending responses is assigned only at construction.",
+		Explanation: "Decides: (D1) at most one completion per request: slot writes follow lookup-and-remove in one critical section, slots are closed only by their single receiver after a successful receive; (D2) at least one after an ending event: every registration starts a context watcher with a guaranteed cancel, and every path from Close in the stop function cancels all pending entries and the callback context; Close is guarded, once, and coupled with the stop cause, which is non-nil at every call; (D3) both client Send sites require the running state established in the same critical section; (D4) filterError maps exactly the codes ErrorCode assigns to context.Canceled/DeadlineExceeded back to them; (D5) OnCancel runs with the lock definitely released, after the Response settled, from a closure created only after this goroutine wrote the slot; OnStop runs with the lock released, only from the closure the stop function returns after actually closing; (D6) reader, per-message delivery and callback goroutines are registered with the WaitGroup that Close waits on before every return. (D7) the waiter that settles a Response calls its cancel function on every path; the delivery loop has no early exit. (D8) the loop that waits for the responses of a batch has no early exit; the table of pending responses is assigned only at construction. (D9) option accessors hand the user's callbacks on: they neither call them nor wrap them in a conditional call.",
 		NotDecided:  []string{"which of reply / context end wins a race", "absence of blocking in user hooks; timing"},
 		Assumptions: []string{"context cancellation semantics", "sync.WaitGroup semantics"},
 		RuleText:    ruleText,
@@ -65,6 +67,7 @@ func init() {
 			ruleTokenClose(c)
 			ruleFirstWaiterReleases(c)
 			ruleBatchWaitsAll(c)
+			ruleAccessorsDoNotCallBack(c, "TABLE.default", c.M.Pkg)
 			rulePendingTablesNeverReplaced(c, c.M.CPending)
 			ruleDeliveryLoopVisitsAll(c)
 			ruleTokenBuffered(c)
